@@ -78,6 +78,49 @@ theorem writeChanges_bytes (fmt : R → List UInt8) (ids : List (List UInt8)) (L
       · simp at h
     · simp at h
 
+/-- the records the loop appends to the abstract backend, and the bytes that stand at their offsets -/
+theorem writeChanges_objs (fmt : R → List UInt8) (ids : List (List UInt8)) (L : Layout) (start : Nat) :
+    ∀ (ch : List (Nat × Prim R × Nat)) (w w' : Written (Prim R)),
+      writeChanges (params fmt ids) L start ch w = (w', .ok ()) →
+      (∀ c ∈ ch, L.recLen c.1 = (frameOf fmt c).length) →
+      ∀ pre : List UInt8, pre.length = w.len →
+        ∃ ext, w'.objs = w.objs ++ ext ∧
+          ∀ o ∈ ext, o.members = [] ∧ w.len ≤ o.off ∧ (params fmt ids).ok o.val = true ∧ (o.id, o.val, o.gen) ∈ ch ∧
+            ∃ rest, (pre ++ framesOf fmt ch).drop o.off = frameOf fmt (o.id, o.val, o.gen) ++ rest := by
+  intro ch
+  induction ch with
+  | nil =>
+    intro w w' h _ pre _
+    simp only [writeChanges, Prod.mk.injEq] at h
+    obtain ⟨rfl, _⟩ := h
+    exact ⟨[], by simp, by simp⟩
+  | cons hd rest ih =>
+    obtain ⟨i, v0, g0⟩ := hd
+    intro w w' h hL pre hpre
+    simp only [writeChanges] at h
+    split at h
+    · split at h
+      · rename_i hok
+        have hl0 := hL (i, v0, g0) (by simp)
+        simp only at hl0
+        have hpre1 : (pre ++ frameOf fmt (i, v0, g0)).length = w.len + L.recLen i := by
+          simp [hpre, hl0]
+        obtain ⟨ext, e1, e2⟩ := ih _ _ h (fun c hc => hL c (by simp [hc])) (pre ++ frameOf fmt (i, v0, g0)) hpre1
+        simp only at e1 e2
+        have hfr : pre ++ framesOf fmt ((i, v0, g0) :: rest) = pre ++ frameOf fmt (i, v0, g0) ++ framesOf fmt rest := by
+          simp [framesOf]
+        refine ⟨⟨w.len, i, g0, v0, []⟩ :: ext, by rw [e1]; simp, ?_⟩
+        intro o ho
+        simp only [List.mem_cons] at ho
+        rcases ho with rfl | ho
+        · refine ⟨rfl, Nat.le_refl _, hok, by simp, framesOf fmt rest, ?_⟩
+          simp only
+          rw [hfr, List.append_assoc, ← hpre, List.drop_left]
+        · obtain ⟨a1, a2, a3, a4, r, a5⟩ := e2 o ho
+          exact ⟨a1, by omega, a3, by simp [a4], r, by rw [hfr]; exact a5⟩
+      · simp at h
+    · simp at h
+
 /-! ### dictionaries built by `dictInsert` -/
 
 open PdfSyntax (WF WFE WFL keysOf vdepth vdepthE vdepthL need needE needL)
@@ -520,5 +563,70 @@ theorem saveB_spec (fmt : R → List UInt8) (pr : List UInt8 → Option R) (d0 :
         = (b.bytes ++ framesOf fmt (prep b.doc).st2.changes) ++ (xrefObjBytes fmt b.doc.tr b.ids (prep b.doc).infoRef i ++ tailBytes i) := by
       simp
     rw [this, hpos, List.drop_left, hxob]
+
+/-- what a successful `saveB` appended to the abstract backend, in terms of the bytes -/
+structure SavedBackend (fmt : R → List UInt8) (b b' : BDoc R) (i : SaveInfo) : Prop where
+  start : b'.doc.st.start = b.doc.st.start
+  startxref : b'.doc.st.startxref = i.xpos
+  xpos_ge : b.doc.st.len ≤ b.doc.st.start + i.xpos
+  secs : b'.doc.st.secs = b.doc.st.secs ++
+      [⟨b.doc.st.start + i.xpos, [⟨0, i.rows⟩], i.size, b.doc.tr.prev, b.doc.tr.root, (prep b.doc).infoRef⟩]
+  objs : ∃ ext, b'.doc.st.objs = b.doc.st.objs ++ ext ++
+        [⟨b.doc.st.start + i.xpos, i.xid, 0, xrefRecVal b.ids b.doc.tr (prep b.doc).infoRef i, []⟩] ∧
+      ∀ o ∈ ext, o.members = [] ∧ (o.id, o.val, o.gen) ∈ (prep b.doc).st2.changes ∧
+        ∃ body rest, serialize fmt o.val = .ok body ∧ b'.bytes.drop o.off = objFrame o.id o.gen body ++ rest
+
+theorem saveB_backend (fmt : R → List UInt8) (d0 : Doc (Prim R)) (chain0) (b b' : BDoc R)
+    (i : SaveInfo) (hb : BaseOK d0 chain0) (hi : Inv d0 b.doc) (hlen : b.bytes.length = b.doc.st.len)
+    (h : saveB fmt b = (b', .ok i)) : SavedBackend fmt b b' i := by
+  obtain ⟨hs, hids, hbytes⟩ := saveB_ok_iff fmt b b' i h
+  have hL := layoutOf_pos fmt b
+  have pf := prep_facts d0 b.doc chain0 hb hi
+  obtain ⟨w, rows, hw, hr, hst, hl, hxid, hxpos, hsize, hrows, _⟩ := save_ok_spec _ _ _ _ _ hs
+  have hinfo := (save_ok_info _ _ _ _ _ hs w rows hw hr).symm
+  subst hrows
+  obtain ⟨k1, _, k4, k5⟩ := writeChanges_ok _ _ _ hL.1 _ _ _ hw pf.inv.sorted pf.inv.objs_lt
+  simp only at k1 k4 k5
+  have hstart : (prep b.doc).st2.start ≤ (prep b.doc).st2.len := by
+    have := hb.start_le; have := pf.inv.start_eq; have := pf.inv.len_ge
+    simp only at *; omega
+  have hLrec : ∀ c ∈ (prep b.doc).st2.changes, (layoutOf fmt b).recLen c.1 = (frameOf fmt c).length := by
+    intro c hc
+    obtain ⟨id, v, g⟩ := c
+    have hlook := chLookup_of_mem_sorted _ pf.inv.sorted _ hc
+    simp only at hlook
+    obtain ⟨_, hok, _⟩ := k5 id v g hlook
+    obtain ⟨body, _, hfr⟩ := frameOf_of_ok fmt b.ids id g v hok
+    simp only [layoutOf, hlook, hfr]
+    have := objFrame_length_pos id g body; omega
+  obtain ⟨b1, _⟩ := writeChanges_bytes fmt b.ids _ _ _ _ _ hw pf.inv.sorted hLrec b.bytes (by rw [hlen, pf.len_same])
+  obtain ⟨ext, e1, e2⟩ := writeChanges_objs fmt b.ids _ _ _ _ _ hw hLrec b.bytes (by rw [hlen, pf.len_same])
+  simp only at e1 e2
+  have hwl : w.len = b.doc.st.start + i.xpos := by
+    have hx : i.xpos = w.len - (prep b.doc).st2.start := hxpos
+    rw [hx, ← pf.start_same]; omega
+  have hge : b.doc.st.len ≤ w.len := by rw [← pf.len_same]; exact k1
+  refine ⟨by rw [hst]; exact pf.start_same, by rw [hst]; exact hxpos.symm, by omega, ?_, ?_⟩
+  · rw [hst]; simp only [commit]; rw [pf.secs_eq, hwl, hsize]
+  · refine ⟨ext, ?_, ?_⟩
+    · rw [hst]; simp only [commit]; rw [hinfo, e1, pf.objs_eq, hwl, hxid]; rfl
+    · intro o ho
+      obtain ⟨a1, a2, a3, a4, r, a5⟩ := e2 o ho
+      obtain ⟨body, hbody, hfr⟩ := frameOf_of_ok fmt b.ids o.id o.gen o.val a3
+      refine ⟨a1, a4, body, r ++ (xrefObjBytes fmt b.doc.tr b.ids (prep b.doc).infoRef i ++ tailBytes i), hbody, ?_⟩
+      rw [hbytes]
+      simp only [revisionBytes]
+      have hoff : o.off ≤ (b.bytes ++ framesOf fmt (prep b.doc).st2.changes).length := by
+        have := congrArg List.length a5
+        simp only [List.length_drop, List.length_append] at this
+        have hp := objFrame_length_pos o.id o.gen body
+        rw [hfr] at this
+        simp only [List.length_append] at hp ⊢
+        omega
+      have : b.bytes ++ (framesOf fmt (prep b.doc).st2.changes ++ xrefObjBytes fmt b.doc.tr b.ids (prep b.doc).infoRef i ++ tailBytes i)
+          = (b.bytes ++ framesOf fmt (prep b.doc).st2.changes) ++ (xrefObjBytes fmt b.doc.tr b.ids (prep b.doc).infoRef i ++ tailBytes i) := by
+        simp
+      rw [this, List.drop_append_of_le_length hoff, a5, hfr]
+      simp
 
 end SaveBytes
